@@ -413,7 +413,14 @@ pub struct Round {
     pub dt: u64,
     pub txs: Vec<TxPlan>,
     pub privileged: Priv,
+    /// before the round: a block T arrives `a` ms after the tip P (with the work that needs), then a hostile fork
+    /// P ← F1 ← F2 ← F3 (`b1`, `b2` ms apart, F1 and F2 honest and together lighter than T, F3 with a falsified burn fee
+    /// in its header) is offered to both nodes: the fork is tried, wound up to F2, fails at F3 and T is wound back
+    pub episode: Option<(u64, u64, u64)>,
 }
+/// fee marker: the amount of routing work half-way between what the tip requires at the round's offset and what the
+/// highest block of the failed fork would require (set by the episode; the plan is skipped when there is no such gap)
+pub const AUTO_FEE: u64 = u64::MAX;
 #[derive(Clone, Debug)]
 pub struct Scenario {
     pub name: String,
@@ -512,7 +519,7 @@ pub fn random_scenario(r: &mut Rng, idx: usize, thorough: bool) -> Scenario {
             }
         }
         let privileged = if r.coin(1, 40) { r.pick(&[Priv::Issuance, Priv::Atr, Priv::Fee]).clone() } else { Priv::None };
-        rounds.push(Round { producer, gt, dt, txs, privileged });
+        rounds.push(Round { producer, gt, dt, txs, privileged, episode: None });
     }
     if r.coin(1, 4) {
         add_conflicts(r, &mut rounds);
@@ -560,8 +567,8 @@ pub fn conflict_family() -> Vec<Scenario> {
                 let other = 1 - waits;
                 let mut rounds = vec![];
                 // two ordinary blocks first (burn fee settles at a known level, both nodes have produced once)
-                rounds.push(Round { producer: waits, gt: true, dt: far, txs: vec![plain(0, 10, 0)], privileged: Priv::None });
-                rounds.push(Round { producer: other, gt: true, dt: far, txs: vec![plain(1, 10, 0)], privileged: Priv::None });
+                rounds.push(Round { producer: waits, gt: true, dt: far, txs: vec![plain(0, 10, 0)], privileged: Priv::None, episode: None });
+                rounds.push(Round { producer: other, gt: true, dt: far, txs: vec![plain(1, 10, 0)], privileged: Priv::None, episode: None });
                 // the other node produces: A and B are parked with the waiting node, A' conflicts with A
                 rounds.push(Round {
                     producer: other,
@@ -573,13 +580,46 @@ pub fn conflict_family() -> Vec<Scenario> {
                         TxPlan { conflict: true, ..plain(2, 7, 0) },
                     ],
                     privileged: Priv::None,
+                    episode: None,
                 });
                 // the waiting node's producer fires inside the window, twice (the second attempt a little later)
-                rounds.push(Round { producer: waits, gt: k % 3 != 1, dt, txs: vec![], privileged: Priv::None });
-                rounds.push(Round { producer: waits, gt: true, dt: (dt + 3_000).min(2 * HB - 1), txs: vec![], privileged: Priv::None });
+                rounds.push(Round { producer: waits, gt: k % 3 != 1, dt, txs: vec![], privileged: Priv::None, episode: None });
+                rounds.push(Round { producer: waits, gt: true, dt: (dt + 3_000).min(2 * HB - 1), txs: vec![], privileged: Priv::None, episode: None });
                 // and the chain goes on
-                rounds.push(Round { producer: other, gt: true, dt: far, txs: vec![plain(0, 10, 1)], privileged: Priv::None });
+                rounds.push(Round { producer: other, gt: true, dt: far, txs: vec![plain(0, 10, 1)], privileged: Priv::None, episode: None });
                 v.push(Scenario { name: format!("conflict-{}", v.len()), gp: 8, issue: default_issue(None), rounds, prune_after: 50, target: 0, stake: 0 });
+                k += 1;
+            }
+        }
+    }
+    v
+}
+
+/// Scripted family "production after a fork that failed part-way": two ordinary blocks, then the episode of
+/// `Round::episode` (the tip T is a block that came shortly after its parent; a longer fork with honest, lighter blocks F1,
+/// F2 and a falsified F3 is tried and rolled back), then the producer fires inside the 2-heartbeat window with exactly
+/// the routing work that lies between what T requires and what F2 would require. A correct node derives the requirement
+/// from its tip T and declines; a node that derives it from anything the failed fork left behind produces a block its
+/// own validator refuses. Swept over the three gaps, the offset and the producing node.
+pub fn failed_fork_family() -> Vec<Scenario> {
+    let far = 2 * HB + 1;
+    let plain = |payer: usize, fee: u64, hops: usize| TxPlan { payer, fee, hops, big_input: false, pad: 0, old: false, park: false, conflict: false };
+    let mut v = vec![];
+    let mut k = 0usize;
+    for a in [300u64, 500, 1_000] {
+        for b in [4_000u64, 5_000, 6_000] {
+            for dt in [2 * HB - 100, 2 * HB - 2_000] {
+                if (k / 2 + k) % 3 == 2 {
+                    k += 1;
+                    continue;
+                }
+                let p = k % 2;
+                let mut rounds = vec![];
+                rounds.push(Round { producer: p, gt: true, dt: far, txs: vec![plain(0, 10, 0)], privileged: Priv::None, episode: None });
+                rounds.push(Round { producer: 1 - p, gt: true, dt: far, txs: vec![plain(1, 10, 0)], privileged: Priv::None, episode: None });
+                rounds.push(Round { producer: p, gt: k % 3 != 1, dt, txs: vec![plain(3, AUTO_FEE, 1)], privileged: Priv::None, episode: Some((a, b, b + (k as u64 % 3) * 400)) });
+                rounds.push(Round { producer: 1 - p, gt: true, dt: far, txs: vec![plain(0, 10, 1)], privileged: Priv::None, episode: None });
+                v.push(Scenario { name: format!("failed-fork-{}", v.len()), gp: 8, issue: default_issue(None), rounds, prune_after: 50, target: 0, stake: 0 });
                 k += 1;
             }
         }
@@ -618,6 +658,7 @@ pub fn scenarios(seed: u64, tier: &str) -> Vec<Scenario> {
     let thorough = tier == "thorough";
     let mut v = corpus();
     v.extend(conflict_family());
+    v.extend(failed_fork_family());
     let mut r = Rng::new(seed ^ 0xC07);
     let n = if thorough { 3000 } else { 500 };
     for i in 0..n {
@@ -628,7 +669,7 @@ pub fn scenarios(seed: u64, tier: &str) -> Vec<Scenario> {
 
 /// scenario text format (corpus/C07/*.ops and the replay files):
 /// `gp=<n>`, `issue=key:amount,…`, then one round per line
-/// `p=<0|1> gt=<0|1> dt=<ms> priv=<n|i|a|f> txs=payer:fee:hops:big:pad:old:park:conflict,…`
+/// `p=<0|1> gt=<0|1> dt=<ms> priv=<n|i|a|f> txs=payer:fee:hops:big:pad:old:park:conflict,… [ep=a:b1:b2]`
 pub fn parse_scenario(text: &str, name: &str) -> Scenario {
     let mut gp = 5;
     let mut target = 0;
@@ -669,12 +710,18 @@ pub fn parse_scenario(text: &str, name: &str) -> Scenario {
             issue = Some(v);
             continue;
         }
-        let mut rd = Round { producer: 0, gt: true, dt: 2 * HB + 1, txs: vec![], privileged: Priv::None };
+        let mut rd = Round { producer: 0, gt: true, dt: 2 * HB + 1, txs: vec![], privileged: Priv::None, episode: None };
         for kv in l.split(' ') {
             match kv.split_once('=') {
                 Some(("p", x)) => rd.producer = x.parse::<usize>().unwrap_or(0) % 2,
                 Some(("gt", x)) => rd.gt = x == "1",
                 Some(("dt", x)) => rd.dt = x.parse().unwrap_or(1).max(1),
+                Some(("ep", x)) => {
+                    let f: Vec<u64> = x.split(':').filter_map(|y| y.parse().ok()).collect();
+                    if f.len() == 3 {
+                        rd.episode = Some((f[0], f[1], f[2]));
+                    }
+                }
                 Some(("priv", x)) => {
                     rd.privileged = match x {
                         "i" => Priv::Issuance,
@@ -724,7 +771,11 @@ pub fn scenario_text(s: &Scenario) -> String {
             Priv::Atr => "a",
             Priv::Fee => "f",
         };
-        o.push_str(&format!("p={} gt={} dt={} priv={} txs={}\n", r.producer, r.gt as u8, r.dt, p, join(&txs, ",")));
+        let ep = match r.episode {
+            Some((a, b1, b2)) => format!(" ep={}:{}:{}", a, b1, b2),
+            None => String::new(),
+        };
+        o.push_str(&format!("p={} gt={} dt={} priv={} txs={}{}\n", r.producer, r.gt as u8, r.dt, p, join(&txs, ","), ep));
     }
     o
 }
@@ -737,6 +788,8 @@ struct World {
     /// every value output the harness has seen created for a payer key (candidates for spending)
     seen: Vec<Utxo>,
     ids: Ids,
+    /// what `AUTO_FEE` stands for in the current round (None: no gap, the plan is skipped)
+    auto_fee: Option<u64>,
 }
 
 fn owner_of(pk: &SaitoPublicKey) -> Option<u64> {
@@ -799,9 +852,14 @@ fn build_tx(w: &World, plan: &TxPlan, used: &mut Vec<SaitoUTXOSetKey>, producer_
     if cands.is_empty() {
         return None;
     }
-    let u = if plan.big_input { cands.last().unwrap().clone() } else { cands.first().unwrap().clone() };
+    let want = if plan.fee == AUTO_FEE { w.auto_fee? } else { plan.fee };
+    // (an automatic fee needs an input that can pay it in full)
+    let u = if plan.big_input || plan.fee == AUTO_FEE { cands.last().unwrap().clone() } else { cands.first().unwrap().clone() };
+    if plan.fee == AUTO_FEE && u.slip.amount <= want {
+        return None;
+    }
     used.push(u.slip.utxoset_key);
-    let fee = plan.fee.min(u.slip.amount - 1);
+    let fee = want.min(u.slip.amount - 1);
     let out = u.slip.amount - fee;
     // change goes back to the payer in two slips when large enough (keeps the payers liquid)
     let outputs = if out > 400_000 { vec![(payer, out / 2), (payer, out - out / 2)] } else { vec![(payer, out)] };
@@ -912,7 +970,7 @@ pub async fn run_scenario(sc: &Scenario, seed: u64, e: &mut Emit<'_>) -> Report 
     let mut f = Factory::new(seed, cfg.clone());
     let genesis = f.make_genesis(&sc.issue).await;
     f.remember(&genesis);
-    let mut w = World { nodes: [Node::new(KEY_A, cfg.clone()), Node::new(KEY_B, cfg.clone())], f, seen: vec![], ids: Ids::new() };
+    let mut w = World { nodes: [Node::new(KEY_A, cfg.clone()), Node::new(KEY_B, cfg.clone())], f, seen: vec![], ids: Ids::new(), auto_fee: None };
     // history feature per node: an earlier bundle lost its pool in a failed Block::create (root of the listed stale counter)
     let mut create_failed = [false, false];
     for n in w.nodes.iter_mut() {
@@ -930,6 +988,19 @@ pub async fn run_scenario(sc: &Scenario, seed: u64, e: &mut Emit<'_>) -> Report 
     for (ri, rd) in sc.rounds.iter().enumerate() {
         if sc.target > 0 && rep.accepted >= sc.target {
             break;
+        }
+        w.auto_fee = None;
+        if let Some((a, b1, b2)) = rd.episode {
+            match failed_fork_episode(&mut w, sc, rd, a, b1, b2).await {
+                Ok(gap) => {
+                    (e.count)("episode:failed-fork:done");
+                    (e.count)(if gap { "episode:failed-fork:work-gap" } else { "episode:failed-fork:no-work-gap" });
+                }
+                Err(why) => {
+                    (e.count)(&format!("episode:failed-fork:stop:{}", why));
+                    break;
+                }
+            }
         }
         let (tip_a, tip_b) = (w.nodes[0].tip(), w.nodes[1].tip());
         if tip_a != tip_b || tip_a.is_none() {
@@ -1234,6 +1305,114 @@ pub async fn run_scenario(sc: &Scenario, seed: u64, e: &mut Emit<'_>) -> Report 
         }
     }
     rep
+}
+
+/// `Block::create` on a node's own block store (any known parent), outside the node's pool
+async fn create_with(node: &Node, parent_hash: SaitoHash, ts: u64, creator: u64, txs: Vec<Transaction>) -> Result<Block, String> {
+    let (pk, sk) = key(creator);
+    let mut map: ahash::AHashMap<saito_core::core::defs::SaitoSignature, Transaction> = Default::default();
+    for mut t in txs {
+        t.generate(&pk, 0, 0);
+        map.insert(t.signature, t);
+    }
+    match guarded_async(Block::create(&mut map, parent_hash, &node.blockchain, ts, &pk, &sk, None, &node.cfg, &node.storage)).await {
+        Ok(Ok(mut b)) => {
+            b.generate().map_err(|e| e.to_string())?;
+            Ok(b)
+        }
+        Ok(Err(e)) => Err(e.to_string()),
+        Err(p) => Err(format!("panic:{}", p)),
+    }
+}
+
+async fn deliver_both(w: &mut World, b: &Block) -> [&'static str; 2] {
+    let mut r = ["-", "-"];
+    for i in 0..2 {
+        r[i] = match guarded_async(w.nodes[i].add_block(b.clone())).await {
+            Ok(x) => add_result_class(&x),
+            Err(_) => "panic",
+        };
+    }
+    r
+}
+
+/// see `Round::episode`. Ok(true): the round's automatic fee is set (the requirement derived from the tip is above the one
+/// derived from the highest block of the failed fork); Ok(false): no such gap; Err: the history did not unfold as scripted
+async fn failed_fork_episode(w: &mut World, sc: &Scenario, rd: &Round, a: u64, b1: u64, b2: u64) -> Result<bool, &'static str> {
+    let tip = w.nodes[0].tip().ok_or("no-tip")?;
+    if w.nodes[1].tip() != Some(tip) {
+        return Err("nodes-diverged");
+    }
+    let pb = w.nodes[0].blockchain.blocks.get(&tip.1).ok_or("no-tip-block")?.clone();
+    let needed = |bf: Currency, now: u64, prev: u64| BurnFee::return_routing_work_needed_to_produce_block_in_nolan(bf, now, prev, HB);
+    let routed = |payer: usize, fee: u64| TxPlan { payer, fee, hops: 1, big_input: true, pad: 0, old: false, park: false, conflict: false };
+    let pooled: Vec<SaitoUTXOSetKey> = w.nodes.iter().flat_map(|n| n.mempool.transactions.values().flat_map(|t| t.from.iter().map(|s| s.utxoset_key)).collect::<Vec<_>>()).collect();
+    let next_id = pb.id + 1;
+    let other_key = if rd.producer == 0 { KEY_B } else { KEY_A };
+    // T: the other node's block, `a` ms after P, carrying the work that needs
+    let mut used = pooled.clone();
+    let nt = needed(pb.burnfee, pb.timestamp + a, pb.timestamp);
+    let tt = build_tx(w, &routed(2, nt + nt / 10 + 10), &mut used, other_key, 0, next_id, sc.gp, 231).ok_or("payer-cannot-pay-for-T")?;
+    let t = create_with(&w.nodes[0], pb.hash, pb.timestamp + a, other_key, vec![tt]).await.map_err(|_| "create-T-failed")?;
+    if deliver_both(w, &t).await != ["added_lc", "added_lc"] {
+        return Err("T-not-adopted");
+    }
+    w.learn(&t);
+    // the fork, built on each node's own store as the blocks arrive; its transactions spend outputs that exist at P
+    let mut used_f = pooled.clone();
+    let n1 = needed(pb.burnfee, pb.timestamp + b1, pb.timestamp);
+    let t1 = build_fork_tx(w, &pb, 0, n1 + n1 / 10 + 10, &mut used_f, 232).ok_or("payer-cannot-pay-for-F1")?;
+    let f1 = create_with(&w.nodes[0], pb.hash, pb.timestamp + b1, IDLE, vec![t1]).await.map_err(|_| "create-F1-failed")?;
+    if deliver_both(w, &f1).await != ["added_side", "added_side"] {
+        return Err("F1-not-a-side-block");
+    }
+    let n2 = needed(f1.burnfee, f1.timestamp + b2, f1.timestamp);
+    let t2 = build_fork_tx(w, &pb, 1, n2 + n2 / 10 + 10, &mut used_f, 233).ok_or("payer-cannot-pay-for-F2")?;
+    let f2 = create_with(&w.nodes[0], f1.hash, f1.timestamp + b2, IDLE, vec![t2]).await.map_err(|_| "create-F2-failed")?;
+    if (f1.burnfee as u128) + (f2.burnfee as u128) >= t.burnfee as u128 {
+        return Err("fork-not-lighter-than-T");
+    }
+    if deliver_both(w, &f2).await != ["added_side", "added_side"] {
+        return Err("F2-not-a-side-block");
+    }
+    let t3 = build_fork_tx(w, &pb, 2, 10, &mut used_f, 234).ok_or("payer-cannot-pay-for-F3")?;
+    let mut f3 = create_with(&w.nodes[0], f2.hash, f2.timestamp + 2 * HB + 1, IDLE, vec![t3]).await.map_err(|_| "create-F3-failed")?;
+    // the hostile part: the header states a burn fee that makes the fork the heavier chain
+    f3.burnfee = t.burnfee.saturating_mul(2);
+    w.f.resign(&mut f3, IDLE);
+    let r3 = deliver_both(w, &f3).await;
+    if r3 != ["invalid", "invalid"] {
+        return Err("F3-not-rejected");
+    }
+    if w.nodes[0].tip().map(|x| x.1) != Some(t.hash) || w.nodes[1].tip().map(|x| x.1) != Some(t.hash) {
+        return Err("tip-not-restored");
+    }
+    let now = t.timestamp + rd.dt.max(1);
+    let from_tip = needed(t.burnfee, now, t.timestamp);
+    let from_fork = needed(f2.burnfee, now, f2.timestamp);
+    if from_fork < from_tip && from_tip - from_fork >= 4 {
+        w.auto_fee = Some(from_fork + (from_tip - from_fork) / 2);
+        Ok(true)
+    } else {
+        Ok(false)
+    }
+}
+
+/// a transaction for a fork block: the largest output of the payer that existed when block `at` was the tip (it may have been
+/// spent on the main chain since), routed in one hop to the fork's creator
+fn build_fork_tx(w: &World, at: &Block, payer: usize, fee: u64, used: &mut Vec<SaitoUTXOSetKey>, salt: u8) -> Option<Transaction> {
+    let payer = PAYERS[payer];
+    let mut c: Vec<Utxo> = w.seen.iter().filter(|u| u.owner == payer && u.slip.amount > fee && u.slip.block_id <= at.id && !used.contains(&u.slip.utxoset_key)).cloned().collect();
+    c.sort_by_key(|u| (u.slip.amount, u.slip.block_id, u.slip.tx_ordinal, u.slip.slip_index));
+    // spendable at `at`: not consumed by a block up to `at` on node A's chain — the nodes hold T on top of `at`, so an output T
+    // consumed is still listed as spent there; T's transaction spends payer index 2 only and the fork uses it last
+    let u = c.into_iter().rev().find(|u| u.slip.validate(&w.nodes[0].blockchain.utxoset))?;
+    used.push(u.slip.utxoset_key);
+    let out = u.slip.amount - fee;
+    let mut tx = w.f.make_tx(&TxSpec { inputs: vec![u], outputs: vec![(payer, out)], data: vec![salt, at.id as u8] });
+    let (pk, sk) = key(payer);
+    tx.add_hop(&sk, &pk, &key(IDLE).0);
+    Some(tx)
 }
 
 fn tx_fee(tx: &Transaction) -> u64 {
